@@ -231,8 +231,23 @@ def run_one(ch, cfg):
         viol.append(("object/exception", "%s: %s" % (type(e).__name__, e)))
     # ---- authorize on the device
     n0 = len(dev.sigaut_log)
+    # one run in six: a link / device fault at a drawn exchange of the authorize command - whatever
+    # happens, the tool never reports success unless the device ended up authorised
+    afault = {}
+    if ch.draw(6, "authorize.fault") == 1:
+        at = w.link.index + ch.draw(24, "authorize.fault.at")
+        kindf = ch.pick(["read_err_after", "read_err_before", "write_err", "timeout_after",
+                         ("sw", 0x6E00), ("sw", 0x6A80), ("sw", 0x6985)], "authorize.fault.kind")
+
+        def ffn(i, apdu):
+            if i == at:
+                afault["fired"] = kindf
+                return kindf
+            return None
+        w.link.fault_fn = ffn
     st, out = w.run_tool(adm_ledger.main, ["adm_ledger.py", "authorize_signer", "-p", "abcd1234",
                                            "-z", AUTH])
+    w.link.fault_fn = None
     w.entropy_on = False
     logx = dev.sigaut_log[n0:]
     final = A_load(w, AUTH)
@@ -251,6 +266,17 @@ def run_one(ch, cfg):
     should = stop_at is not None
     desc = "iteration %s (device at %d), %d authorisers, steps %s -> exit %s, device log %s" % (
         it_val, cur_iter, nauth, steps, st, [(op, d.hex()[:20]) for op, d in logx][:6])
+    if afault.get("fired"):
+        authorised = dev.signer_hash == app_hash and dev.signer_iteration == it_val
+        # (an answer lost after the device acted leaves it authorised without the tool knowing: only
+        # the false success is forbidden)
+        if st == 0 and not authorised:
+            viol.append(("tool/false-success", desc + " fault %s: exit 0 although the device is not "
+                         "authorised" % (afault["fired"],)))
+        return _res(viol, w, ("faulted-authorize", str(afault["fired"]), authorised), len(logx) > 0,
+                    {"authorize_fault": 1, "authorised": int(authorised)},
+                    {"iteration": it_str, "fault": str(afault["fired"]), "authorize_exit": st,
+                     "authorised": authorised})
     if logx:
         want0 = (0x01, app_hash + it_val.to_bytes(2, "big"))
         if logx[0] != want0:
@@ -299,7 +325,7 @@ def A_load(w, path):
 
 def _res(viol, w, state, nontrivial, probes, sample):
     return {"violations": viol, "digest": w.log.digest(), "state": state, "nontrivial": nontrivial,
-            "faults": {}, "probes": probes, "sim_s": w.clock.elapsed, "sample": sample}
+            "faults": dict(w.link.stats.faults), "probes": probes, "sim_s": w.clock.elapsed, "sample": sample}
 
 
 def _m(owner_path, name, old, new, count=1):
